@@ -220,6 +220,31 @@ def run(ctx):
             r4.violation(key, "window argument is %s" % show(s.expr[2][1], 60), s.loc)
     r4.floor(6, "window facts")
 
+    # round-robin: the slot cursor advances after every run(), also when that run produced a packet
+    rq = prog.fn(SENDER + "::read_priority_queue")
+    ctx.analysed(rq.path)
+    rfl = Flow(rq.body)
+    runs = call_sites(rq, lambda p, c: p.endswith("SenderSession::run"))
+    SSL_ = "sender::sender::SenderSessionList"
+    adv = set(a["bb"] for a in field_accesses(prog, SSL_, "index", funcs=[rq]) if a["kind"] == "assign" and
+              a["value"][0] == "bin" and a["value"][1].startswith("Add") and show(a["value"][3]) == "1")
+    somes = [bb for bb, e in ret_assign_blocks(rq.body, lambda e: not is_variant(e, "None"))]
+    key = "read_priority_queue: cursor advances before a packet is returned"
+    if not runs or not adv or not somes:
+        r2.violation(key, "run() call (%d) / `index += 1` (%d) / packet return (%d) not found" % (len(runs), len(adv), len(somes)), loc(rq.sp))
+    else:
+        bad = None
+        for s in runs:
+            for rb in somes:
+                ok, w = rfl.must_pass(s.term.target, [rb], lambda n: n[0] == "b" and n[1] in adv)
+                if not ok:
+                    bad = w
+        if bad is None:
+            r2.ok(key, "every path from session.run() to `return data` passes sessions.index += 1", loc(rq.sp))
+        else:
+            r2.violation(key, "a slot that delivers a packet keeps the turn (the cursor is not advanced on the returning path): with multiplex_files >= 2 "
+                              "the other slots are starved although their objects are ready: %s" % path_text(rq.body, bad), loc(rq.sp))
+
     # ---- R5 a yielding higher-priority session is not overtaken -------------------------------------------
     r5 = ctx.rule("C13.R5", "a session that has a ready object returns None from run() only to let a pending FDT instance out; since "
                             "Sender::read takes the first Some in priority order, strict priority then requires that *every* object "
